@@ -299,7 +299,7 @@ fn gen_line(t: &mut Tape, hostile: bool, neg_zero: bool, clock: &mut f64) -> Str
     let time = if neg_zero && t.chance(25) { "-0".to_string() } else { time };
     let bl: String = match t.weighted(&[6, 6, 2, if hostile { 2 } else { 0 }]) {
         0 => (*t.pick(&["500", "1", "100000", "0", "333.33", "6", "60000", "59999.5", "250", "1000", "2147483647", "2147483647.25", "2147483647.5", "2147483646.75"])).to_string(),
-        1 => (*t.pick(&["-100", "-50", "-1000", "-2000", "-5", "-100", "-133.33", "-10", "-0.5", "-20000", "NaN", "-0", "-2147483647", "-2147483647.25", "-2147483647.5"])).to_string(),
+        1 => (*t.pick(&["-100", "-50", "-1000", "-2000", "-5", "-100", "-133.33", "-10", "-0.5", "-20000", "NaN", "-0", "-2147483647", "-2147483647.25", "-2147483647.5", "-199.99999999999997", "-200", "-200.00000000000003", "-100.00000000000001", "-99.99999999999999"])).to_string(),
         2 => (*t.pick(&[" 250 ", "5e2", "+400", "-1e2", "nan", "-NaN"])).to_string(),
         _ => {
             if t.chance(50) {
@@ -331,8 +331,8 @@ fn gen_line(t: &mut Tape, hostile: bool, neg_zero: bool, clock: &mut f64) -> Str
     if nf == 7 && t.chance(10) {
         l.push_str(",extra");
     }
-    if t.chance(4) {
-        l.push_str(" // c");
+    if t.chance(5) {
+        l.push_str(*t.pick(&[" // c", " // c", " //,2,7,40,0,1", " // a, b, c", "//,1", " // 1,2,3,4,5,6,7,8,9"]));
     }
     if hostile && t.chance(3) {
         l = (*t.pick(&["100", "", "// only a comment", "   ", ",", ",,"])).to_string();
